@@ -198,7 +198,7 @@ Kind genKind(Rng& r, int typeMode)
 }
 
 // random batch whose lengths are aimed at the fit / no-fit boundaries of the running reference layout
-Batch genBatch(Rng& r, size_t maxPackets, bool allowHuge, bool allowUndefinedType = false)
+Batch genBatch(Rng& r, size_t maxPackets, bool allowHuge, bool allowUndefinedType = false, bool allowEmptyPayload = false)
 {
     Batch b;
     b.cfg = genConfig(r);
@@ -227,6 +227,18 @@ Batch genBatch(Rng& r, size_t maxPackets, bool allowHuge, bool allowUndefinedTyp
             d.kind = K_OTHER_MT;
             d.msgType = 0;  // message type 'undefined': legal for the frame-level properties, outside C01's domain
             d.typedCtor = false;
+        }
+        if (allowEmptyPayload && r.chance(1, 8))
+        {
+            // a packet whose payload is empty (only C09 quantifies over batches without a length restriction): nothing of it goes
+            // onto the wire, but it may make the encoder open a frame
+            d.kind = (d.msgType == wire::MT_STATUS) ? K_GEN_STATUS : (d.msgType == wire::MT_DATA ? K_GEN_DATA : d.kind);
+            if (kindIsTyped(d.kind))
+                d.kind = K_GEN_DATA, d.msgType = wire::MT_DATA;
+            d.ptype = 0x3A;
+            d.payload.clear();
+            d.typedCtor = false;
+            d.retype = 0;
         }
         // mirror the reference model to know the remaining space for the next packet
         size_t need = 16 + d.payload.size();
@@ -1379,7 +1391,7 @@ std::vector<Op> randomHistory(Ctx& c, Rng& r)
             }
             else
             {
-                o.batch = genBatch(r, c10 ? 8 : 5, false, c.prop != "C01");
+                o.batch = genBatch(r, c10 ? 8 : 5, false, c.prop != "C01", c.prop == "C09");
                 // the same context across consecutive calls is the common usage: reuse the previous one half of the time
                 if (r.chance(1, 2))
                     for (size_t k = h.size(); k-- > 0;)
